@@ -45,6 +45,11 @@ def zoo():
     z['enum_float_arrays'] = ([E, S.Struct('X', [M('ea', 'E', S.DYNAMIC), M('fa', 'float', S.LIMITED, 2)])], 'X')
     z['nested_opt_array'] = ([F, G, S.Struct('X', [M('g', 'G'), M('ga', 'G', S.DYNAMIC)])], 'X')
     z['union_array'] = ([E, F, U, S.Struct('X', [M('ua', 'U', S.LIMITED, 2)])], 'X')
+    # two struct arms: leaving a struct arm for another struct arm and coming back must find it at its defaults
+    F2 = S.Struct('F2', [M('r', 'u16'), M('s', 'u8')])
+    U2 = S.Union('U2', [S.Arm(1, 'F', 'y'), S.Arm(2, 'F2', 't'), S.Arm(3, 'u8', 'x')])
+    z['union_structs'] = ([F, F2, U2], 'U2')
+    z['union_structs_in'] = ([F, F2, U2, S.Struct('X', [M('a', 'u8'), M('u', 'U2')])], 'X')
     return z
 
 
@@ -185,7 +190,7 @@ def hidden_keys(msg):
         elif hasattr(v, '_values'):
             out.append((k, tuple(hidden_keys(e) for e in v._values if hasattr(e, '_fields'))))
         else:
-            out.append((k, None if v is None else 1))
+            out.append((k, None if v is None else repr(v)))     # the value too: a stale stored value may resurface
     return tuple(out)
 
 
